@@ -473,6 +473,7 @@ func registerNatives(e *Engine) {
 	})
 
 	registerStd(e)
+	registerCompression(e)
 }
 
 // summarise runs fv(args...) on all its paths from the current state and merges the scalar results into
